@@ -1,12 +1,11 @@
 """Re-run every kept seeded change (verif/../seeded/*/patch.diff) against the checks; update meta.json; print a table.
 A seed counts as caught when its OWN property's check reports a new violation on a scratch copy with the patch."""
-import json, os, subprocess, sys, glob
+import concurrent.futures, json, os, subprocess, sys, glob
 VERIF = os.path.dirname(os.path.dirname(os.path.dirname(os.path.abspath(__file__))))
-rows = []
-for d in sorted(glob.glob(os.path.join(VERIF, "seeded", "*"))):
+
+
+def one(d):
     mp = os.path.join(d, "meta.json")
-    if not os.path.isfile(mp):
-        continue
     meta = json.load(open(mp))
     r = subprocess.run(["/venv/bin/python", "-m", "verif.tools.tryseed", os.path.join(d, "patch.diff")], cwd=VERIF, capture_output=True, text=True)
     fired = [l for l in r.stdout.splitlines() if " VIOLATED [" in l]
@@ -16,8 +15,18 @@ for d in sorted(glob.glob(os.path.join(VERIF, "seeded", "*"))):
     json.dump(meta, open(mp, "w"), indent=1)
     props = sorted({l.split()[0] for l in fired})
     rules = sorted({l.split("[")[1].split("]")[0] for l in fired if l.startswith(meta["property"] + " ")})
-    rows.append((meta["id"], meta["property"], "yes" if meta["caught_by_property_check"] else ("other" if fired else "NO"), ",".join(rules), ",".join(props)))
-for r in rows:
-    print("%-7s %-4s own:%-5s rules:%-28s fired-in:%s" % r)
-print("%d seeds, %d caught by own property check, %d only by another, %d missed" % (
-    len(rows), len([r for r in rows if r[2] == "yes"]), len([r for r in rows if r[2] == "other"]), len([r for r in rows if r[2] == "NO"])))
+    return (meta["id"], meta["property"], "yes" if meta["caught_by_property_check"] else ("other" if fired else "NO"), ",".join(rules), ",".join(props))
+
+
+def main():
+    dirs = [d for d in sorted(glob.glob(os.path.join(VERIF, "seeded", "*"))) if os.path.isfile(os.path.join(d, "meta.json"))]
+    with concurrent.futures.ThreadPoolExecutor(max_workers=16) as ex:
+        rows = list(ex.map(one, dirs))
+    for r in rows:
+        print("%-7s %-4s own:%-5s rules:%-28s fired-in:%s" % r)
+    print("%d seeds, %d caught by own property check, %d only by another, %d missed" % (
+        len(rows), len([r for r in rows if r[2] == "yes"]), len([r for r in rows if r[2] == "other"]), len([r for r in rows if r[2] == "NO"])))
+
+
+if __name__ == "__main__":
+    main()
